@@ -251,6 +251,12 @@ def compare_pair(ctx, a, b, filters, plan_names, is_wt, guards=frozenset()):
                             sim.probe("generic_half_record")
                             got = {c for c in got if not (c[0] == "v" and c[1] in broken)}
                             ref = {c for c in ref if not (c[0] == "v" and c[1] in broken)}
+                    if spec is not None and "filter_path_occupant" in guards:
+                        taken = {c[2][1]: c[1] for c in got | ref if c[0] == "v" and c[4][1]}
+                        occ = {c for c in got ^ ref if c[0] == "v" and c[2][0] in taken and taken[c[2][0]] != c[1] and not any(p is not None and T.inside(s, p) for s in spec for p in c[2])}
+                        if occ:
+                            sim.probe("filter_path_occupant")
+                            got, ref = got - occ, ref - occ
                     if spec is not None and inc and "filter_unchanged_parent" in guards:
                         got, ref = drop_outside(got, spec), drop_outside(ref, spec)
                     if spec is not None and inc:
@@ -318,10 +324,21 @@ def compare_pair(ctx, a, b, filters, plan_names, is_wt, guards=frozenset()):
                         continue
                     whole = full[inc, unv]
                     # a filtered result is the part of the unfiltered one that the filter covers
-                    extra = {r for r in got if r[:4] not in {w[:4] for w in whole}}
+                    wmap = {w[1]: w for w in whole if w[0] == "p"}
+                    wother = {w for w in whole if w[0] != "p"}
+
+                    def part_of_whole(r):
+                        if r[0] != "p":
+                            return r in wother
+                        w = wmap.get(r[1])
+                        # a path that is both source and target of guessed renames shows one
+                        # half only when the other rename partner is outside the filter
+                        return w is not None and (r[2] is None or r[2] == w[2]) and (r[3] is None or r[3] == w[3])
+
+                    extra = {r for r in got if not part_of_whole(r)}
                     if extra:
                         ctx.fail("filtered_differs", impl, "filtered result reports %r, the unfiltered one does not" % (_short(extra),), params)
-                    must = {w[:4] for w in whole if any(T.inside(s, w[1]) for s in spec)}
+                    must = {w[:4] for w in whole if w[0] == "p" and any(T.inside(s, w[1]) for s in spec)}
                     lost = must - {r[:4] for r in got}
                     if lost:
                         ctx.fail("filtered_differs", impl, "unfiltered result has %r below the filter, the filtered one does not" % (_short(lost),), params)
